@@ -82,18 +82,23 @@ def dump_table(focus="default"):
     mode: mode selection is done by the vi_mode/emacs_mode filter atoms."""
     if focus in _CACHE:
         return _CACHE[focus]
-    from prompt_toolkit import PromptSession
-    from prompt_toolkit.application.current import create_app_session, set_app
-    from prompt_toolkit.enums import EditingMode
-    from prompt_toolkit.input import create_pipe_input
-    from prompt_toolkit.output import DummyOutput
-    with create_pipe_input() as inp:
-        with create_app_session(input=inp, output=DummyOutput()):
-            s = PromptSession(editing_mode=EditingMode.VI)
+    import asyncio
+    import c05_drive
+
+    async def main():
+        # a RUNNING prompt: the registry of a running application also holds the
+        # global bindings of the other controls of the layout
+        from prompt_toolkit.application.current import set_app
+        s = c05_drive.Session({"mode": "vi", "multiline": False, "text": "", "history": []})
+        await s.start()
+        try:
             if focus == "search":
                 with set_app(s.app):
-                    s.app.layout.focus(s.search_buffer)
-            t = table_of(s.app)
+                    s.app.layout.focus(s.session.search_buffer)
+            return table_of(s.app)
+        finally:
+            await s.finish()
+    t = asyncio.run(main())
     _CACHE[focus] = t
     return t
 
